@@ -434,7 +434,7 @@ func TestC23(t *testing.T) {
 	run := ev.Start(t, "C23", "exploration",
 		"Histories = per round and host one of {absent, present+check passes, present+check fails}. Exhaustive families (every sequence up to the stated length): "+
 			"E9 two hosts with the full alphabet; E6 a subject host with the full alphabet next to a companion that is present(passing) or absent; "+
-			"E3 a subject host with the full alphabet next to an always-present companion (longer histories for larger Fails/Passes); E27 three hosts (thorough). "+
+			"E3 a subject host with the full alphabet next to an always-present companion (longer histories for larger Fails/Passes); E27 three hosts (thorough). Lengths: quick E9=4, E6=6, E3=9; thorough E9=5, E6=6-7, E3=10, E27=3. "+
 			"Fails/Passes range over 1..4. Plus PRNG streaky histories with 1-4 hosts, length 6-14. The real Filter.Run result is compared with the model after every round. "+
 			"A history is non-trivial when, in the model, some host changed health state or some host left and rejoined.")
 	defer run.Finish()
@@ -469,15 +469,17 @@ func TestC23(t *testing.T) {
 				continue
 			}
 			l := 6
-			if !quick {
-				l = 7
+			if !quick && f == p {
+				l = 7 // (1,1) and (2,2)
 			}
 			enums = append(enums, &enumeration{"E6-subject+optional-companion", two, [][]uint8{full, passOrNo}, l, f, p})
 		}
 	}
 	for f := 1; f <= 4; f++ {
 		for p := 1; p <= 4; p++ {
-			if quick && !((f == 3 && p == 2) || (f == 2 && p == 3) || (f == 3 && p == 3) || (f == 4 && p == 4)) {
+			deep := (f == 3 && p == 2) || (f == 2 && p == 3) || (f == 3 && p == 3) || (f == 4 && p == 4)
+			wide := (f == 1 && p == 4) || (f == 4 && p == 1) || (f == 4 && p == 2) || (f == 2 && p == 4)
+			if !deep && (quick || !wide) {
 				continue
 			}
 			l := 9
@@ -488,11 +490,11 @@ func TestC23(t *testing.T) {
 		}
 	}
 	if !quick {
-		for _, fp := range [][2]int{{1, 1}, {2, 2}} {
-			enums = append(enums, &enumeration{"E27-three-hosts", three, [][]uint8{full, full, full}, 4, fp[0], fp[1]})
+		for _, fp := range [][2]int{{1, 1}, {2, 1}, {1, 2}, {2, 2}} {
+			enums = append(enums, &enumeration{"E27-three-hosts", three, [][]uint8{full, full, full}, 3, fp[0], fp[1]})
 		}
 	}
-	nRandom := run.N(20000, 200000)
+	nRandom := run.N(20000, 100000)
 
 	ag := &agg{count: map[string]int{}, witnesses: map[string][]wit{}}
 	replay := run.ReplayCase()
